@@ -322,6 +322,10 @@ pub struct Proc {
     pub disp: Vec<Disp>, // index 0..=64
     pub state: PState,
     pub stopped: bool,
+    /// stop signal not yet reported to a waitpid(WUNTRACED) (0 = nothing to report)
+    pub stop_unreported: i32,
+    /// continued, not yet reported to a waitpid(WCONTINUED)
+    pub cont_unreported: bool,
     pub report: Option<ChildReport>,
     pub exec: Option<ExecRecord>,
     /// descriptor table right after exec (fd -> desc)
@@ -1207,6 +1211,24 @@ impl Kernel {
                 return Ok((*c, status));
             }
         }
+        // stopped / continued children are reported only on request, once, and stay children
+        if flags & libc::WUNTRACED != 0 {
+            for c in &cands {
+                let sig = self.proc(*c).stop_unreported;
+                if sig != 0 && self.proc(*c).stopped {
+                    self.proc_mut(*c).stop_unreported = 0;
+                    return Ok((*c, (sig << 8) | 0x7f));
+                }
+            }
+        }
+        if flags & libc::WCONTINUED != 0 {
+            for c in &cands {
+                if self.proc(*c).cont_unreported {
+                    self.proc_mut(*c).cont_unreported = false;
+                    return Ok((*c, 0xffff));
+                }
+            }
+        }
         if flags & libc::WNOHANG != 0 {
             return Ok((0, 0));
         }
@@ -1247,11 +1269,16 @@ impl Kernel {
         }
         if sig == SIGSTOP {
             self.proc_mut(pid).stopped = true;
+            self.proc_mut(pid).stop_unreported = sig;
             self.touch();
             return;
         }
         if sig == SIGCONT {
+            if self.proc(pid).stopped {
+                self.proc_mut(pid).cont_unreported = true;
+            }
             self.proc_mut(pid).stopped = false;
+            self.proc_mut(pid).stop_unreported = 0;
             self.touch();
             // falls through to disposition handling (default: nothing more)
         }
@@ -1272,6 +1299,7 @@ impl Kernel {
                 DefAct::Ign | DefAct::Cont => {}
                 DefAct::Stop => {
                     self.proc_mut(pid).stopped = true;
+                    self.proc_mut(pid).stop_unreported = sig;
                     self.touch();
                 }
             },
@@ -1527,6 +1555,8 @@ impl Proc {
             disp: vec![Disp::Default; 65],
             state: PState::PreExec,
             stopped: false,
+            stop_unreported: 0,
+            cont_unreported: false,
             report: None,
             exec: None,
             exec_fds: BTreeMap::new(),
